@@ -551,7 +551,7 @@ var clauseKeywords = map[string]bool{
 	"func": true, "spec": true, "pureany": true, "purefunc": true, "lemma": true, "axiom": true, "pureiface": true,
 	"props": true, "requires": true, "ensures": true, "let": true, "loop": true, "assigns": true,
 	"pure": true, "functional": true, "inline": true, "trusted": true, "callback": true, "ghost": true, "on": true,
-	"maypanic": true, "attr": true, "assume": true, "package": true, "nobody": true, "cover": true,
+	"maypanic": true, "attr": true, "assume": true, "package": true, "nobody": true, "cover": true, "token": true,
 }
 
 func firstWord(s string) (string, string) {
@@ -849,6 +849,12 @@ func (cs *ContractSet) LoadFile(path, pkgPath string, isSpec bool) error {
 				}
 			case "assigns":
 				cur.Clauses = append(cur.Clauses, &Clause{Kind: "assigns", Text: rest, Line: where})
+			case "token":
+				cl, err := parseTokenClause(rest, where)
+				if err != nil {
+					return fail(err)
+				}
+				cur.Clauses = append(cur.Clauses, cl)
 			case "callback":
 				// callback <target> requires label: expr
 				tgt, r2 := firstWord(rest)
